@@ -14,6 +14,7 @@ from common import Machinery  # noqa: E402
 
 CHECKS = {
     "C01": ("hf", {}), "C02": ("hf", {}), "C10": ("hf", {}), "C12": ("hf", {}),
+    "C20": ("c20", {}),
 }
 
 
